@@ -131,6 +131,24 @@ def _hang_trace(path, what):
         fh.write(json.dumps({"e": "Close"}) + "\n")
 
 
+def _abort_trace(path, what):
+    """The harness died on a signal (a crash inside the code under test): keep the complete records it
+    wrote and end the trace with Abort, which the trace spec never accepts."""
+    keep = []
+    if os.path.exists(path):
+        with open(path) as fh:
+            for line in fh:
+                try:
+                    json.loads(line)
+                    keep.append(line.rstrip("\n"))
+                except ValueError:
+                    break
+    with open(path, "w") as fh:
+        for line in keep:
+            fh.write(line + "\n")
+        fh.write(json.dumps({"e": "Abort", "what": what}) + "\n")
+
+
 def run(ctx):
     vlib.build(["vfield"])
     q = ctx.quick
@@ -160,6 +178,8 @@ def run(ctx):
         r = vlib.run_harness("vfield", ["scripted", sp, out], timeout=300, check=False)
         if r.returncode == 124:
             _hang_trace(out, "vfield scripted timed out")
+        elif r.returncode < 0:
+            _abort_trace(out, "vfield scripted killed by signal %d" % -r.returncode)
         elif r.returncode != 0 or not os.path.exists(out):
             raise vlib.Broken("vfield scripted failed (exit %d): %s" % (r.returncode, r.stderr[-2000:]))
         traces.append(("scripted%02d" % i, out, "vfield scripted %s" % sp))
@@ -174,6 +194,8 @@ def run(ctx):
         r = vlib.run_harness("vfield", args, timeout=600 if q else 2400, check=False)
         if r.returncode == 124:
             _hang_trace(out, "vfield real timed out")
+        elif r.returncode < 0:
+            _abort_trace(out, "vfield real killed by signal %d" % -r.returncode)
         elif r.returncode != 0 or not os.path.exists(out):
             raise vlib.Broken("vfield %s failed (exit %d): %s" % (args, r.returncode, r.stderr[-2000:]))
         return ("real%02d" % i, out, "vfield " + " ".join(args))
